@@ -518,6 +518,42 @@ class _ConsumerFailure(Exception):
     pass
 
 
+def dump_pushed(make, rows, path, out, what):
+    """A dump fed by a pushed (hot, not trampolined) source, whose consumer reads the file back from inside the
+    completion callback - the streaming application that post-processes the file when the dump completes.
+    At that moment the file must already be complete and closed: -> Snap of the dump."""
+    from .common import Snap
+    import os
+    src = Controlled()
+    snap = Snap()
+    seen = []
+
+    def on_completed():
+        try:
+            with open(path, 'rb') as f:
+                seen.append(f.read())
+        except Exception as e:          # noqa: BLE001
+            seen.append(e)
+        snap.on_completed()
+    try:
+        make(src.observable).subscribe(on_next=snap.on_next, on_error=snap.on_error, on_completed=on_completed)
+        for r in rows:
+            src.push(r)
+        src.complete()
+    except Exception as e:              # noqa: BLE001
+        if snap.err is None:
+            snap.err = e
+    if snap.done and os.path.exists(path):
+        with open(path, 'rb') as f:
+            final = f.read()
+        out.observed['files_read_back_inside_the_completion_callback'] += 1
+        if not seen or isinstance(seen[0], Exception) or seen[0] != final:
+            out.fail('file-not-complete-when-completion-is-signalled', what=what,
+                     at_completion=(repr(seen[0]) if seen and isinstance(seen[0], Exception) else (len(seen[0]) if seen else None)),
+                     final_size=len(final))
+    return snap
+
+
 def usable_prelude(prog, prelude):
     """tee_map publishes its source (RxPY publish() / connect()): once that subject has seen a terminal event -
     the source error of an aborted run - every later subscription only receives that event again.  A pipeline
